@@ -216,9 +216,18 @@ ADDENDA = {
            "request carries the interpreter's s.lower() for its strings) and tied to the implementation's lower()-on-both-sides contract on case-variant families "
            "(sharp s, long s, final sigma, dotted/dotless i, ligatures, Kelvin, Angstrom) in the boolean, select and history streams.",
 }
-for _k, _extra in ADDENDA.items():
+# the owners of the checks keep the final wording of their entries in tools/manifest_texts/<id>.json
+# ({"technique", "level_text", "level_note"}); such a file replaces the entry above (and its addendum)
+_TEXTS = os.path.join(HERE, "tools", "manifest_texts")
+for _k in sorted(CLAIMED):
     _t = CLAIMED[_k]
-    CLAIMED[_k] = (_t[0], _t[1] + " " + _extra) + tuple(_t[2:])
+    _f = os.path.join(_TEXTS, _k + ".json")
+    if os.path.exists(_f):
+        with open(_f) as _fh:
+            _o = json.load(_fh)
+        CLAIMED[_k] = (" ".join(_o["technique"].split()), " ".join(_o["level_text"].split()), " ".join(_o["level_note"].split())) + tuple(_t[3:])
+    elif _k in ADDENDA:
+        CLAIMED[_k] = (_t[0], _t[1] + " " + ADDENDA[_k]) + tuple(_t[2:])
 
 
 PENDING_REASON = "check not built yet in this round (planned: DESIGN.md §6); no claim is made until its model, theorems and correspondence run exist"
